@@ -20,3 +20,42 @@ Theorem c13_split_irrelevant : forall W calls1 calls2, 1 <= W ->
   impl_lines W calls1 = impl_lines W calls2.
 Proof. exact GreedyProof.c04_split_independent. Qed.
 Print Assumptions c13_split_irrelevant.
+
+(* ---------- render-tree level (Proofs/SimRel.v): text leaves that differ only in which whitespace characters they use and in the
+   length of whitespace runs render identically, tables included (tree_ok: no white-space:pre style anywhere; no character that is
+   both whitespace and an ASCII digit - true of every Unicode character) ---------- *)
+From H2T Require Import Sub Css Dom Render Api Proofs.WrapInv Proofs.RenderWidth Proofs.OptionRel Proofs.Compose Proofs.SimRel.
+Theorem c13_norm_render :
+  forall (d : deco) (mw : N) (o : ropts) (width : N) (tree : rnode),
+       tree_ok tree = true -> render_tree d mw o width (norm_tree tree) = render_tree d mw o width tree.
+Proof. exact SimRel.c13_norm_render. Qed.
+Print Assumptions c13_norm_render.
+
+Theorem c13_ws_equiv_render :
+  forall (d : deco) (mw : N) (o : ropts) (width : N) (tree1 tree2 : rnode),
+       ws_equiv tree1 tree2 ->
+       tree_ok tree1 = true ->
+       tree_ok tree2 = true -> render_tree d mw o width tree1 = render_tree d mw o width tree2.
+Proof. exact SimRel.c13_ws_equiv_render. Qed.
+Print Assumptions c13_ws_equiv_render.
+
+Theorem c13_ws_equiv_lines :
+  forall (d : deco) (mw : N) (o : ropts) (width : N) (tree1 tree2 : rnode),
+       ws_equiv tree1 tree2 ->
+       tree_ok tree1 = true ->
+       tree_ok tree2 = true ->
+       (do s <- render_tree d mw o width tree1; sub_into_lines s) =
+       (do s <- render_tree d mw o width tree2; sub_into_lines s) /\
+       (do s <- render_tree d mw o width tree1; sub_into_string s) =
+       (do s <- render_tree d mw o width tree2; sub_into_string s).
+Proof. exact SimRel.c13_ws_equiv_lines. Qed.
+Print Assumptions c13_ws_equiv_lines.
+
+Theorem c13_render_with_context :
+  forall (c : config) (tree1 tree2 : rnode) (w : N),
+       ws_equiv tree1 tree2 ->
+       tree_ok tree1 = true ->
+       tree_ok tree2 = true -> render_with_context c tree1 w = render_with_context c tree2 w.
+Proof. exact SimRel.c13_render_with_context. Qed.
+Print Assumptions c13_render_with_context.
+
